@@ -25,7 +25,7 @@ from ..flags import Evaluator, Sym, Unsupported, all_tags
 from ..flow import dominating_tests
 from ..guards import REQUIRED, covers, parse_guards
 from ..model import model_of
-from ..siblings import get_siblings
+from ..siblings import get_siblings, undecided
 from ..source import AnalysisError, calls_in, dotted, kwarg, norm
 
 
@@ -144,10 +144,13 @@ def run(chk):
 
     # ---- R5
     t = sib.terms("cache", jc)
-    cols = S.normalise(t["COLS"]["raw"], "Join")
-    chk.ob("R5", sib.cfgs["cache"].module, sib.cfgs["cache"].func, f"cache Join: cols = {S.show(cols)}", cols == ("merge", S.COLS, S.RCOLS),
-           f"after a join the cache keeps {S.show(cols)} instead of all columns of both inputs: hidden columns of an input stop being usable")  # fmt: skip
+    if not undecided(chk, "R5", t, "Join in cache"):
+        cols = S.normalise(t["COLS"]["raw"], "Join")
+        chk.ob("R5", sib.cfgs["cache"].module, sib.cfgs["cache"].func, f"cache Join: cols = {S.show(cols)}", cols == ("merge", S.COLS, S.RCOLS),
+               f"after a join the cache keeps {S.show(cols)} instead of all columns of both inputs: hidden columns of an input stop being usable")  # fmt: skip
     for name in ("cache", "polars", "sql"):
+        if undecided(chk, "R5", sib.terms(name, jc), f"Join in {name}"):
+            continue
         sel = sib.terms(name, jc)["SEL"]["nf"]
         chk.ob("R5", sib.cfgs[name].module, sib.cfgs[name].func, f"{name} Join: visible = {S.show(sel)}", sel == ("cat", S.IN, S.RIN),
                f"{name}: visible columns after a join are {S.show(sel)}, documented: left columns then right columns")  # fmt: skip
